@@ -2,7 +2,7 @@
 state in worker processes, replays every solver model against the gcc-built parser and the concrete abstract machine."""
 import os, sys, time, json, hashlib, multiprocessing as mp, traceback
 import z3
-from . import chk, nm, l3 as l3mod, absm, stepcmp, replay, multicall
+from . import chk, nm, l3 as l3mod, absm, stepcmp, replay, multicall, reach
 
 CONFIGS_QUICK = [
     ('default', ()),
@@ -93,9 +93,26 @@ def work(job):
                 if 'c10' in aspects:
                     for f in multicall.c10_state(L, m, sidx, alloc, job.get('L', 2), st):
                         f['sym'] = 'chunk'; finds.append(f)
-        extra = job.get('extra')
-        if extra:
-            finds += extra(L, m, comp, st)
+        if 'c03' in aspects:
+            finds += stepcmp.start_check(L, st)
+            finds += stepcmp.free_check(L, st)
+            # one-step models start from an arbitrary pre-state: look for an input through the public API that reaches it
+            tried = {}
+            for f in finds:
+                if f['kind'] not in ('c03-mem', 'c03-inv') or '_cond' not in f:
+                    continue
+                k = (f['what'], f['detail'].split(' off=')[0], f['pre']['state'], f['sym'])
+                if k not in tried:
+                    try:
+                        tried[k] = reach.find_input(m, L.layout, comp.post.states[f['pre']['state']], f['_cond'], f['_data'],
+                                                    maxlen=8 if job['tier'] == 'quick' else 12, max_paths=400 if job['tier'] == 'quick' else 3000)
+                    except Exception as e:
+                        tried[k] = None
+                        st.d['cov'].setdefault('reach_errors', []).append(repr(e)[:120])
+                f['reach'] = tried[k]
+        for f in finds:
+            for k in ('_cond', '_data', '_byte'):
+                f.pop(k, None)
         # dedupe findings by (kind, what, detail-class, state)
         seen = {}
         for f in finds:
@@ -157,14 +174,25 @@ def replay_finding(comp, L, m, f):
         t1 = replay.observable_trace(clog, [0]); t2 = replay.observable_trace(alog, [0])
         diff = replay.traces_differ(t1, t2)
         return {'reproduced': diff is not None, 'diff': diff, 'c': t1[-2:], 'abstract': t2[-2:]}
-    calls = [('end',)] if f['sym'] == 'end' else [('feed', [f['byte']])]
+    calls = [('end',)] if f['sym'] == 'end' else [('feed', [f.get('byte', 0)])]
     sc = {'pre': f['pre'], 'calls': calls}
     if f['kind'] in ('c03-mem', 'c03-inv'):
+        if f['sym'] == 'start':
+            sc = {'calls': []}
+        elif f['sym'] == 'free':
+            sc = {'calls': [('free',), ('free',)]}
+        elif f.get('reach') is not None:
+            sc = {'calls': [('feed', list(f['reach']) + ([f['byte']] if f['sym'] == 'byte' else []))] + ([('end',)] if f['sym'] == 'end' else [])}
+        else:
+            return {'reproduced': 'unreached', 'note': 'no input through the public API reaches the pre-state of the model within the search bound'}
         clog, diag = replay.run_c(comp, L.layout, sc, sanitize=True)
         if clog is None:
             return {'reproduced': None, 'note': 'replay build failed: ' + diag[:200]}
         crashed = any(e[0] in ('CRASH', 'TIMEOUT') for e in clog)
         res = {'reproduced': bool(crashed), 'sanitizer': diag[:400] if crashed else '', 'clog': clog[-3:]}
+        if not crashed and f['sym'] in ('byte', 'end') and any(not sv.get('alloc', True) for sv in f['pre']['strs'].values()):
+            # the reach search does not track allocation state: the input reaches the control state and data but not the NULL buffer
+            return {'reproduced': 'unreached', 'note': 'input reaches the control/data state but not the allocation state of the model', 'clog': clog[-2:]}
         if not crashed and f['kind'] == 'c03-inv':
             # invariant violations are visible in the dumped outputs: re-evaluate on the concrete post-state
             res['reproduced'] = concrete_inv_violation(comp, L, clog, f)
@@ -198,7 +226,7 @@ def concrete_inv_violation(comp, L, clog, f):
     rets = [e for e in clog if e[0] == 'RET']
     if not rets:
         return False
-    outs = rets[-1][3]
+    outs = rets[-1][3] or {}
     for n, o in comp.spec.items():
         if n in L.layout.cap and n in outs:
             ln = outs[n].split(':')[0]
@@ -207,6 +235,10 @@ def concrete_inv_violation(comp, L, clog, f):
                     return True
             except ValueError:
                 pass
+            if '/' in outs[n] and 'NUL at counter' in f['detail'] and f['detail'].startswith(n + ':'):
+                t = outs[n].split('/')[1]
+                if t not in ('00', 'xx'):
+                    return True
     return None  # cannot be observed through the dump (e.g. missing terminator): left to the standard-level argument
 
 
